@@ -7,7 +7,7 @@
                     transitionTasks / configureTasks  (commands go to the tasks handed in by the environment)
    Definitions only (executable, total); lemmas are in proofs/Ownership_proofs.v.
    Shared by C04 and C06; the environment level (creation, teardown, API wrappers) is Teardown.v. *)
-From Verif Require Import Common.
+From Verif Require Import Common Gen_UtsWrites.
 Open Scope N_scope.
 
 (* task state machine states as reported by the executors *)
@@ -118,6 +118,18 @@ Definition task_dies (id : tid) (r : roster) : roster :=
 (* ---- the executor / the agent of the tasks [ids] failed *)
 Definition fail_tasks (ids : list tid) (r : roster) : roster :=
   map (fun t => if mem_tid (t_id t) ids then set_failed t else t) r.
+
+(* ---- a TASK_RUNNING status update that comes from the master (answer to the reconciliation after a
+   re-subscription): it names the agent but no executor.  updateTaskStatus writes the fields listed in
+   gen/Gen_UtsWrites.v (regenerated from the source on every run); a write of executorId that is not
+   guarded by "the update carries an executor id" blanks it. *)
+Definition recon_blanks : bool :=
+  existsb (fun p => N.eqb (fst p) 3 && negb (snd p)) uts_running_writes.
+Definition recon_task (t : task) : task :=
+  if t_active t && t_idok t
+  then mkTask (t_id t) (t_owner t) true (t_state t) (negb recon_blanks)
+  else t.
+Definition recon_tasks (r : roster) : roster := map recon_task r.
 
 (* ids of the tasks a given environment owns *)
 Definition owned_ids (e : N) (r : roster) : list tid :=
